@@ -455,7 +455,9 @@ func sliceSortedLater(p *core.Program, fn *ssa.Function, sl ssa.Value) bool {
 			case ssa.CallInstruction:
 				n := core.CalleeFullName(x)
 				if strings.HasPrefix(n, "slices.Sort") || strings.HasPrefix(n, "sort.") {
-					found = true
+					if sortIsTotal(x, n) {
+						found = true
+					}
 				}
 				if b, ok := x.Common().Value.(*ssa.Builtin); ok && b.Name() == "append" {
 					if v2, ok := x.(ssa.Value); ok {
@@ -467,4 +469,72 @@ func sliceSortedLater(p *core.Program, fn *ssa.Function, sl ssa.Value) bool {
 	}
 	walk(sl)
 	return found
+}
+
+// sortIsTotal: natural-order sorts are total on distinct map keys; comparator-based sorts are accepted only if the
+// comparator compares the two elements themselves (directly, or as slice elements at its two indices) — a
+// comparator that only looks at derived values leaves ties in map-iteration order.
+func sortIsTotal(call ssa.CallInstruction, name string) bool {
+	base := name
+	if i := strings.Index(base, "["); i >= 0 {
+		base = base[:i]
+	}
+	switch base {
+	case "slices.Sort", "sort.Strings", "sort.Ints", "sort.Float64s", "slices.SortStable":
+		return true
+	case "slices.SortFunc", "slices.SortStableFunc", "sort.Slice", "sort.SliceStable":
+	default:
+		return false
+	}
+	args := call.Common().Args
+	if len(args) < 2 {
+		return false
+	}
+	var cmpFn *ssa.Function
+	switch v := args[1].(type) {
+	case *ssa.MakeClosure:
+		cmpFn, _ = v.Fn.(*ssa.Function)
+	case *ssa.Function:
+		cmpFn = v
+	case *ssa.ChangeType:
+		if mc, ok := v.X.(*ssa.MakeClosure); ok {
+			cmpFn, _ = mc.Fn.(*ssa.Function)
+		} else if f, ok := v.X.(*ssa.Function); ok {
+			cmpFn = f
+		}
+	}
+	if cmpFn == nil || cmpFn.Blocks == nil || len(cmpFn.Params) != 2 {
+		return false
+	}
+	a, b := ssa.Value(cmpFn.Params[0]), ssa.Value(cmpFn.Params[1])
+	isElem := func(v ssa.Value, idx ssa.Value) bool {
+		if v == idx {
+			return true
+		}
+		if ld, ok := v.(*ssa.UnOp); ok {
+			if ia, ok := ld.X.(*ssa.IndexAddr); ok && ia.Index == idx {
+				return true
+			}
+		}
+		return false
+	}
+	direct := false
+	for _, blk := range cmpFn.Blocks {
+		for _, in := range blk.Instrs {
+			switch x := in.(type) {
+			case *ssa.BinOp:
+				if (isElem(x.X, a) && isElem(x.Y, b)) || (isElem(x.X, b) && isElem(x.Y, a)) {
+					direct = true
+				}
+			case *ssa.Call:
+				n := core.CalleeFullName(x)
+				if (strings.HasPrefix(n, "cmp.Compare") || n == "strings.Compare") && len(x.Call.Args) == 2 {
+					if (isElem(x.Call.Args[0], a) && isElem(x.Call.Args[1], b)) || (isElem(x.Call.Args[0], b) && isElem(x.Call.Args[1], a)) {
+						direct = true
+					}
+				}
+			}
+		}
+	}
+	return direct
 }
